@@ -133,7 +133,7 @@ pub fn c18_alt_offset_holds(k1: u8, a1: u32, b1: u8, c1: u8, t1: i32, k2: u8, a2
     };
     assert!(tz.to_local_time_type(ts).utoff == expect);
 }
-/// classification of the reader's result (encoding validation: see c19v_classify_holds)
+/// classification of the reader's result (encoding validation: see c19_enc_classify_holds)
 pub fn dbg_classify(b: &[u8]) -> i32 {
     match TimeZone::from_tzif(b) {
         Err(_) => 0,
@@ -146,7 +146,7 @@ pub fn dbg_classify(b: &[u8]) -> i32 {
 }
 /// encoding validation only (not a claim): on concrete (bytes, k) the native build and the encoding must agree on whether the reader's
 /// result class is k, so an encoding that takes a wrong path through the reader is noticed even where neither side panics
-pub fn c19v_classify_holds(b: &[u8], k: i32) {
+pub fn c19_enc_classify_holds(b: &[u8], k: i32) {
     assume(0 <= k && k <= 4);
     assert!(dbg_classify(b) == k);
 }
@@ -161,8 +161,8 @@ pub fn c18_alt_branch_holds(k1: u8, a1: u32, b1: u8, c1: u8, t1: i32, k2: u8, a2
     assume(rule_day_valid(&r1) && rule_day_valid(&r2));
     assume(-RULE_TIME_MAX <= t1 && t1 <= RULE_TIME_MAX && -RULE_TIME_MAX <= t2 && t2 <= RULE_TIME_MAX);
     assume(-UTOFF_MAX <= su && su <= UTOFF_MAX && -UTOFF_MAX <= du && du <= UTOFF_MAX);
-    let s = rule_ts(&r1, t1, ts) - su as i64; // daylight time starts (UTC)
-    let e = rule_ts(&r2, t2, ts) - du as i64; // daylight time ends (UTC)
+    let s = rule_ts(mk_rule_day(k1, a1, b1, c1), t1, ts) - su as i64; // daylight time starts (UTC)
+    let e = rule_ts(mk_rule_day(k2, a2, b2, c2), t2, ts) - du as i64; // daylight time ends (UTC)
     assume(s != e);
     let expect = if s < e { if s <= ts && ts < e { du } else { su } } else if e <= ts && ts < s { su } else { du };
     let tz = TimeZone {
